@@ -574,5 +574,5 @@ func sampleSpec(run *vc.Run, prop string, idx int) *spec.Spec {
 		return nil
 	}
 	prof := c.Profiles[idx%len(c.Profiles)]
-	return gen.Generate(run.Rand(2, uint64(idx)), id, gen.Opts{Profile: prof, Runtime: true, Thorough: run.Thorough(), Files: c.AllowFiles, Streams: c.Streams})
+	return gen.Generate(run.Rand(2, uint64(idx)), id, gen.Opts{Profile: prof, Runtime: true, Thorough: run.Thorough(), Files: c.AllowFiles, Streams: c.Streams, Unions: c.Unions})
 }
